@@ -87,7 +87,7 @@ def fam_creation():
            op('synth', **{'def': 'default'}, tk='obj', t=1, act='addToTail', a=[])]
     shapes = arg_shapes(bus=2, buf=3, node=4)
     for act in ACTIONS:
-        for tk, t in (('obj', 1), ('obj', 4), ('none', 0), ('server', 0)):
+        for tk, t in (('obj', 1), ('obj', 4), ('none', 0), ('server', 0), ('root', 0)):
             hs.append(pre + [op('synth', **{'def': 'd'}, tk=tk, t=t, act=act, a=shapes[1]),
                              op('group', tk=tk, t=t, act=act, n=[0]), op('group', tk=tk, t=t, act=act, n=[1]),
                              op('paused', **{'def': 'd'}, tk=tk, t=t, act=act, a=shapes[2]),
@@ -398,7 +398,7 @@ def random_history(rnd, n):
         if dead and pick('synth', 'group') and rnd.random() < 0.08:     # the map symbol of a freed bus: must be refused
             return op('set', h=pick('synth', 'group'), a=[ts('in'), tmap(dead)])
         tgt = pick('group', 'synth')
-        tk = rnd.choice(['obj', 'obj', 'none', 'server']) if tgt else rnd.choice(['none', 'server'])
+        tk = rnd.choice(['obj', 'obj', 'none', 'server', 'root']) if tgt else rnd.choice(['none', 'server', 'root'])
         if x < 0.12 or not kinds:
             kinds.append('group')
             return op('group', tk=tk, t=tgt or 0, act=rnd.choice(ACTIONS), n=[rnd.randint(0, 1)])
